@@ -55,6 +55,7 @@ type ReplayItem struct {
 }
 
 type Stats struct {
+	PathsNontrivial int
 	Paths, PathsOK, PathsAssumeEnd, PathsViolation, PathsError, PathsBudget int
 	AssertsChecked, AssertsSymbolic, AssertsConcrete                        int
 	Branches, Forks                                                         int
@@ -81,10 +82,11 @@ type Explorer struct {
 	deadline time.Time
 	harness  string
 	maxViol  int
+	seenViol map[string]bool
 }
 
 func newExplorer(h string, maxPaths int, deadline time.Time) *Explorer {
-	e := &Explorer{harness: h, maxPaths: maxPaths, deadline: deadline, maxViol: 5}
+	e := &Explorer{harness: h, maxPaths: maxPaths, deadline: deadline, maxViol: 40}
 	e.cond = sync.NewCond(&e.mu)
 	e.queue = []WorkItem{{}}
 	e.stats.Errors = map[string]int{}
@@ -573,6 +575,15 @@ func (p *Path) violation(kind, msg, where string, vals map[string]ModelVal) {
 	}
 	ex := p.w.ex
 	ex.mu.Lock()
+	key := kind + "|" + msg + "|" + where
+	if ex.seenViol == nil {
+		ex.seenViol = map[string]bool{}
+	}
+	if ex.seenViol[key] {
+		ex.mu.Unlock()
+		return
+	}
+	ex.seenViol[key] = true
 	ex.stats.Violations = append(ex.stats.Violations, vio)
 	if len(ex.stats.Violations) >= ex.maxViol {
 		ex.stop = true
